@@ -475,6 +475,50 @@ func (d *driver) evalModDown(count int) {
 }
 
 // Main: vrun c02 record --trace f --tier t --seed s
+// decompose records rlwe.Evaluator.DecomposeSingleNTT (ring.Decomposer.DecomposeAndSplit plus the rows of the group itself)
+// on toy parameters: for every digit, the residues of the digit on all moduli of Q and P next to the input residues, for
+// every (levelQ, levelP) -- the group size is the number of auxiliary primes in use, as in the gadget product.
+func (d *driver) decompose(qs, ps []uint64) {
+	p, err := rlwe.NewParametersFromLiteral(rlwe.ParametersLiteral{LogN: 4, Q: qs, P: ps, NTTFlag: true})
+	tr.Must(err)
+	eval := rlwe.NewEvaluator(p, nil)
+	rq, rp := p.RingQ(), p.RingP()
+	n := rq.N()
+	for lq := 0; lq <= rq.Level(); lq++ {
+		for lp := 0; lp <= rp.Level(); lp++ {
+			alpha := lp + 1
+			r := rq.AtLevel(lq)
+			rpl := rp.AtLevel(lp)
+			Ql := prod(qs[:lq+1])
+			digits := (lq + 1 + alpha - 1) / alpha
+			for rep := 0; rep < 2; rep++ {
+				vals := d.boundary(Ql, new(big.Int).SetUint64(qs[lq]), n)
+				if len(vals) > n {
+					vals = vals[rep%(len(vals)-n+1):][:n]
+				}
+				for len(vals) < n {
+					vals = append(vals, new(big.Int).Rand(d.rng, Ql))
+				}
+				in := polyFromInts(r, vals)
+				inNTT := rq.NewPoly()
+				r.NTT(in, inNTT)
+				for i := 0; i < digits; i++ {
+					oq, op := rq.NewPoly(), rp.NewPoly()
+					msg := guard(func() { eval.DecomposeSingleNTT(lq, lp, alpha, i, inNTT, in, oq, op) })
+					if msg != "" {
+						d.emit(ev{"ev": "crash", "what": fmt.Sprintf("DecomposeSingleNTT lq=%d lp=%d alpha=%d digit=%d", lq, lp, alpha, i), "msg": msg})
+						continue
+					}
+					r.INTT(oq, oq)
+					rpl.INTT(op, op)
+					d.emit(ev{"ev": "decomp", "qs": qs[:lq+1], "ps": ps[:lp+1], "alpha": alpha, "digit": i,
+						"x": rows(in, lq+1), "dq": rows(oq, lq+1), "dp": rows(op, lp+1)})
+				}
+			}
+		}
+	}
+}
+
 func Main(args []string) int {
 	fs := flag.NewFlagSet("c02", flag.ExitOnError)
 	trace := fs.String("trace", "", "trace")
@@ -511,6 +555,12 @@ func Main(args []string) int {
 				}
 			}
 		}
+	}
+	// gadget decomposition on toy parameters (ring degree 16): up to three digits of two primes, the last one incomplete
+	for _, c := range []struct{ q, p []uint64 }{{[]uint64{97, 193, 257, 353, 449}, []uint64{577, 641}}, {[]uint64{257, 97, 193}, []uint64{353}}} {
+		d.prog++
+		d.fork = 0
+		d.decompose(c.q, c.p)
 	}
 	// real size
 	type cfg struct {
